@@ -401,7 +401,7 @@ func genTotalCase(rt *rapid.T) (string, map[string]string, string) {
 		class = "corrupted-program"
 	case k <= 9:
 		u := rapid.SampledFrom(pathoUnits).Draw(rt, "unit")
-		prefix := rapid.SampledFrom([]string{"T | where ", "T | extend x = ", "T | summarize ", "T | sort by ", "T | join (U) on ", "let v = ", "T | take ", "T | project a = ", ""}).Draw(rt, "prefix")
+		prefix := rapid.SampledFrom([]string{"T | where ", "T | extend x = ", "T | extend ", "T | summarize count() by ", "T | count; U | where ", "T | summarize ", "T | sort by ", "T | join (U) on ", "let v = ", "T | take ", "T | project a = ", ""}).Draw(rt, "prefix")
 		maxN := (4096 - len(prefix)) / max(1, len(u.open)+len(u.close))
 		n := rapid.IntRange(1, max(1, maxN)).Draw(rt, "depth")
 		if rapid.IntRange(0, 47).Draw(rt, "small") > 0 {
